@@ -46,7 +46,7 @@ type Case struct {
 
 var byteKinds = []string{"bitflip", "delete", "insert-00", "insert-ff", "insert-copy", "subst-00", "subst-ff", "subst-not"}
 var fieldKinds = []string{"rewrite", "remove", "add-unknown"}
-var sigKinds = []string{"resign-other-same-alg", "resign-other-alg", "resign-signer-header", "borrow-signature", "header-other-alg", "header-garbled", "header-empty", "sig-truncate", "sig-empty", "sig-extend", "sig-zero"}
+var sigKinds = []string{"issuer-signs-foreign-header", "issuer-signs-garbled-header", "issuer-signs-empty-header", "issuer-signs-extended-header", "resign-other-same-alg", "resign-other-alg", "resign-signer-header", "borrow-signature", "header-other-alg", "header-garbled", "header-empty", "sig-truncate", "sig-empty", "sig-extend", "sig-zero"}
 
 var dlgFields = []string{"iss", "aud", "sub", "cmd", "pol", "nonce", "meta", "nbf", "exp"}
 var invFields = []string{"iss", "aud", "sub", "cmd", "args", "prf", "nonce", "meta", "exp", "iat", "cause"}
@@ -202,6 +202,29 @@ func corrupt(cs Case, sealed []byte) (out []byte, oldSig bool, ok bool) {
 	case "resign-other-same-alg", "resign-other-alg":
 		k := otherKey(iss, c.Kind == "resign-other-same-alg", c.Alt).Key()
 		b, err := env.Seal(k.Priv, e.SigPayload) // header still announces the issuer's type
+		return b, false, err == nil
+	case "issuer-signs-foreign-header", "issuer-signs-garbled-header", "issuer-signs-empty-header", "issuer-signs-extended-header":
+		// a VALID signature by the issuer's own key over a sigPayload whose header
+		// does not announce the issuer's signature scheme
+		var hdr []byte
+		switch c.Kind {
+		case "issuer-signs-foreign-header":
+			types := []pb.KeyType{pb.KeyType_Ed25519, pb.KeyType_Secp256k1, pb.KeyType_ECDSA, pb.KeyType_RSA}
+			for i := 0; i < 4; i++ {
+				hdr = env.HeaderFor(types[(c.Alt+i)%4])
+				if !bytes.Equal(hdr, e.Header) {
+					break
+				}
+			}
+		case "issuer-signs-garbled-header":
+			hdr = append([]byte{}, e.Header...)
+			hdr[c.Alt%len(hdr)] ^= 1 << (c.Alt % 7)
+		case "issuer-signs-extended-header":
+			hdr = append(append([]byte{}, e.Header...), byte(c.Alt))
+		default:
+			hdr = []byte{}
+		}
+		b, err := env.Seal(iss.Key().Priv, env.SigPayloadNode(hdr, e.Tag, e.Payload))
 		return b, false, err == nil
 	case "resign-signer-header":
 		k := otherKey(iss, false, c.Alt).Key()
